@@ -18,6 +18,7 @@ ASSUMPTIONS = ['set-based definition: gap degree = number of maximal '
                'contiguous runs of the yield - 1 (vt/model.py runs())',
                'export files for the CLI runs come from vt/codec.py']
 WATCHDOG = {'quick': 600, 'thorough': 3600}
+LONG_SENTENCES = 3      # floor for the stratum the runner adds (gen.maybe_long)
 MIN = {'quick': {'distinct': 300,
                  'hooks': {'treeanalysis.gap_degree_node': 5000,
                            'trees.terminal_blocks': 5000,
@@ -359,6 +360,7 @@ def make_bank(rng, quick):
     for j in range(k):
         n = rng.choice([1, 2, 3, 5, 8, 12]) if rng.random() < 0.6 \
             else rng.randint(1, 20 if quick else 40)
+        n = gen.maybe_long(rng, n, 0.002)
         bank.append(gen.tree(rng, n, pools, max_arity=rng.choice([2, 3, 5]),
                              p_unary=rng.choice([0, 0.15, 0.3]),
                              moves=rng.choice([0, 0, 1, 2, 3, 6, 10]),
